@@ -109,7 +109,9 @@ impl Octree {
         // We want a number of tasks that's significantly larger than our thread
         // count, so that we can fully saturate all cores even if tasks take
         // different amounts of time.
-        let target_count = (8usize.pow(u32::from(settings.depth)))
+        let target_count = 8usize
+            .checked_pow(u32::from(settings.depth))
+            .unwrap_or(usize::MAX)
             .min(threads.thread_count() * 10);
         while todo.len() < target_count {
             let next = todo.pop_front().unwrap();
